@@ -144,6 +144,40 @@ def explore_c17(rng, tier, res, deep=False):
         for ch, r in leaves:
             lines.append(f"nd.find\t{eenv}\t{a}\t{ed}\t{ch.wire()}")
             expect.append((r, q, doc, ch.wire()))
+    # a compiled query used before: abandon an application half way (find_one, a finditer dropped after one item), end one
+    # in an error (a value beyond the depth limit), then apply it to another value — "every result" includes that one
+    deepv = 0
+    for _ in range(int(ND_ENV["maxDepth"]) + 2 if int(ND_ENV["maxDepth"]) <= 200 else 0):
+        deepv = [deepv]
+    det_env = real.make_env(real.DEFAULT_ENVDESC)
+    desc_queries = [x for x in queries if ".." in x] + ["$..a", "$..b", "$..[0]", "$..[1]", "$..[?@.a]", "$..[-1]"]
+    for _ in range(300 if tier != "thorough" else 3000):
+        q = rng.choice(desc_queries) if rng.random() < 0.85 else rng.choice(queries)
+        first, second = doc_with_all_kinds(rng, 3), doc_with_all_kinds(rng, 2)
+        c = env.compile(q)
+        steps = rng.choice([(1, 0, 0), (0, 1, 0), (0, 0, 1), (1, 1, 0), (1, 1, 1), (1, 0, 1)])
+        try:
+            if steps[0]:
+                c.find_one(first)
+            if steps[1]:
+                it = iter(c.finditer(first))
+                for _k in range(rng.randint(1, 3)):
+                    next(it, None)
+                del it
+            if steps[2] and deepv != 0:
+                try:
+                    c.find(deepv)
+                except jp.JSONPathError:
+                    pass
+            got = sorted(wire.enc_node(n.location, n.value) for n in c.find(second))
+        except jp.JSONPathError as e:
+            got = "err " + type(e).__name__
+        res.evaluations += 1
+        want = sorted(wire.enc_node(n.location, n.value) for n in det_env.find(q, second))
+        if got != want:
+            res.violations.append({"property": "C17", "query": q, "document": second, "observed": str(got)[:300], "expected": str(want)[:300],
+                                   "history": {"earlier value": first, "steps": "compile once (nondeterministic environment); find_one; a finditer dropped after two items; maybe a find on a value beyond the depth limit; find on the document shown"},
+                                   "what": "nondeterministic result is not the same multiset of nodes (compiled query used before)"})
     out = model.run_batch_parallel(lines)
     outcomes_at = {}
     for i, ((r, q, doc, script), o) in enumerate(zip(expect, out)):
